@@ -1,6 +1,8 @@
 import Vflow.Proofs.SkipV9
 import Vflow.Proofs.SkipIpfix
 import Vflow.Props.C02Flow
+import Vflow.Proofs.IpfixIRMsg
+import Vflow.Proofs.V9IRMsg
 import Vflow.Gen.Sites
 import Vflow.Spec.Sites
 /-!
@@ -608,5 +610,85 @@ since the F30 repair, "failed to decodeData" = `Ipfix.nonfatalErr`; NetFlow v9 t
 theorem nonfatal_reviewed :
     Gen.Sites.nonfatalIpfix = Spec.Sites.nonfatalIpfix ∧ Gen.Sites.nonfatalV9 = Spec.Sites.nonfatalV9 := by
   decide +kernel
+
+/-! ## Tie: `Decoder.decodeSet` and `Decoder.Decode` TRANSLATED statement by statement on every run (`Gen.IpfixIR`) and
+interpreted with Go's semantics (`Model/IpfixIR.lean`, linked in `Model/IpfixProg.lean`) ARE `Ipfix.decodeSet` /
+`Ipfix.decode` — the functions every theorem above is about.  What the guard inventory and the correspondence runs
+do not tie statically: the template lookup, `err` carried across the rounds of the record loop, `break` / `return`
+inside it, the leftover skip with its wrapping 16-bit difference, the non-fatal error collection.
+`fuel` bounds every loop of the interpreted program; it has to exceed the octets still to read and the size of every
+cached template (`decodeData` runs over its specifiers).  Proofs: `Proofs/IpfixIRSet.lean`, `Proofs/IpfixIRMsg.lean`. -/
+
+/-- **`Decoder.decodeSet` translated = `Ipfix.decodeSet`** for every exporter, reader state, cache, message so far
+(`agent`, `hdr`, the records in `st.recs`) — state afterwards, the records appended to `msg.DataSets`, and the returned
+error with its class and its wrapping in `nonfatalError{…}` (`IpfixProg.errV`: wrapped exactly when the model calls it
+non-fatal).  `f'` is the model's own fuel: any value above the octets left, like `fuel`. -/
+theorem gen_ir_decodeSet (addr : Bytes) (fuel f' : Nat) (st : Ipfix.St) (agent : Bytes) (hdr : IpfixIR.MHdr)
+    (hfuel : st.r.rem.length < fuel) (hf' : st.r.rem.length < f')
+    (hc : ∀ e ∈ st.cache, e.2.scope.length + e.2.fields.length < fuel) :
+    IpfixProg.decodeSet addr fuel [.msg agent hdr st.recs] ⟨st.r, st.cache⟩ =
+      some (⟨(Ipfix.decodeSet addr f' st).1.r, (Ipfix.decodeSet addr f' st).1.cache⟩,
+        [.msg agent hdr (Ipfix.decodeSet addr f' st).1.recs], [IpfixProg.errV (Ipfix.decodeSet addr f' st).2]) :=
+  IpfixIR.decodeSet_sem addr fuel f' (fuel - 1) st agent hdr hfuel hf'
+    (fun e he => by have := hc e he; simp only [Ipfix.nfields]; omega) (by omega)
+
+/-- **`Decoder.Decode` translated = `Ipfix.decode`** for every datagram, cache and exporter address: the same cache
+afterwards and the same result — the message (AgentID, header, data sets in order) with the collected non-fatal
+errors, or `nil` and the fatal error (`IpfixProg.decodeResult`).  `r'` is where the reader stands at the end (the
+model does not report it). -/
+theorem gen_ir_decode (c : Cache) (addr bs : Bytes) (fuel : Nat) (hfuel : bs.length < fuel)
+    (hc : ∀ e ∈ c, e.2.scope.length + e.2.fields.length < fuel) :
+    ∃ r', IpfixProg.decode addr fuel [] ⟨⟨bs, 0⟩, c⟩ =
+      some (⟨r', (Ipfix.decode c addr bs).2⟩, [], IpfixProg.decodeResult addr (Ipfix.decode c addr bs).1) :=
+  IpfixIR.decode_sem c addr bs fuel hfuel hc
+
+set_option maxRecDepth 100000 in
+/-- non-vacuity: the interpreted translation of `Decode` on the example message (template set, two data sets) yields the
+message with both records, no error, and the cache with template 256 -/
+example : ∃ r', IpfixProg.decode exAddr 57 [] ⟨⟨ipfixMsg, 0⟩, []⟩ =
+    some (⟨r', exCache⟩, [], [.msg exAddr ⟨10, 56, 1, 2, 3⟩ [exRec1, exRec2], .errs []]) := by
+  have h := gen_ir_decode [] exAddr ipfixMsg 57 (by decide) (by simp)
+  have hm : Ipfix.decode [] exAddr ipfixMsg = (.ok ([10, 56, 1, 2, 3], [exRec1, exRec2], []), exCache) := by rfl
+  rw [hm] at h
+  exact h
+
+set_option maxRecDepth 100000 in
+/-- … and on a message whose only set names a template nobody announced: the message without records and the
+non-fatal error, wrapped -/
+example : ∃ r', IpfixProg.decode exAddr 40 [] ⟨⟨ipfixHdr ++ exUnknown, 0⟩, []⟩ =
+    some (⟨r', []⟩, [], [.msg exAddr ⟨10, 56, 1, 2, 3⟩ [], .errs [⟨true, .unknownTpl⟩]]) := by
+  have h := gen_ir_decode [] exAddr (ipfixHdr ++ exUnknown) 40 (by decide) (by simp)
+  have hm : Ipfix.decode [] exAddr (ipfixHdr ++ exUnknown) = (.ok ([10, 56, 1, 2, 3], [], [.unknownTpl]), []) := by rfl
+  rw [hm] at h
+  exact h
+
+/-- **NetFlow v9: `Decoder.decodeSet` translated (`Gen.V9IR`) = `V9.decodeSet`** for every exporter, reader state, cache
+and message so far: template flowsets 0 / 1, reserved ids, data flowsets with the zero-length rule, every error followed
+by the skip of what is left of the flowset — a difference of `int`s that may be negative (`V9.leftInt`; the IR has
+negative `int` values for it) -/
+theorem gen_ir_v9_decodeSet (addr : Bytes) (fuel f' : Nat) (st : V9.St) (agent : Bytes) (hdr : IpfixIR.PHdr)
+    (hfuel : st.r.rem.length < fuel) (hf' : st.r.rem.length < f')
+    (hc : ∀ e ∈ st.cache, e.2.scope.length + e.2.fields.length < fuel) :
+    V9Prog.decodeSet addr fuel [.msg9 agent hdr st.recs] ⟨st.r, st.cache⟩ =
+      some (⟨(V9.decodeSet addr f' st).1.r, (V9.decodeSet addr f' st).1.cache⟩,
+        [.msg9 agent hdr (V9.decodeSet addr f' st).1.recs], [V9Prog.errV (V9.decodeSet addr f' st).2]) :=
+  V9IR.decodeSet_sem addr fuel f' (fuel - 1) st agent hdr hfuel hf'
+    (fun e he => by have := hc e he; simp only [V9.nfields]; omega) (by omega)
+
+/-- **NetFlow v9: `Decoder.Decode` translated = `V9.decode`** for every datagram, cache and exporter address -/
+theorem gen_ir_v9_decode (c : Cache) (addr bs : Bytes) (fuel : Nat) (hfuel : bs.length < fuel)
+    (hc : ∀ e ∈ c, e.2.scope.length + e.2.fields.length < fuel) :
+    ∃ r', V9Prog.decode addr fuel [] ⟨⟨bs, 0⟩, c⟩ =
+      some (⟨r', (V9.decode c addr bs).2⟩, [], V9Prog.decodeResult addr (V9.decode c addr bs).1) :=
+  V9IR.decode_sem c addr bs fuel hfuel hc
+
+set_option maxRecDepth 100000 in
+/-- non-vacuity: the interpreted translation of the v9 `Decode` on the example packet -/
+example : ∃ r', V9Prog.decode exAddr 61 [] ⟨⟨v9Msg, 0⟩, []⟩ =
+    some (⟨r', exCache⟩, [], [.msg9 exAddr ⟨9, 3, 1, 2, 3, 4⟩ [exRec1, exRec2], .errs []]) := by
+  have h := gen_ir_v9_decode [] exAddr v9Msg 61 (by decide) (by simp)
+  have hm : V9.decode [] exAddr v9Msg = (.ok ([9, 3, 1, 2, 3, 4], [exRec1, exRec2], []), exCache) := by rfl
+  rw [hm] at h
+  exact h
 
 end Vflow.C09
